@@ -78,7 +78,11 @@ func (s *SwitchPool) GetOne(ctx context.Context, client client.VPC, zone string,
 
 	switch selectOptions.VSwitchSelectPolicy {
 	case VSwitchSelectionPolicyRandom:
-		rand.Shuffle(len(ids), func(i, j int) { ids[i], ids[j] = ids[j], ids[i] })
+		// shuffle a copy: the caller's list may be shared (and must not be reordered)
+		shuffled := make([]string, len(ids))
+		copy(shuffled, ids)
+		rand.Shuffle(len(shuffled), func(i, j int) { shuffled[i], shuffled[j] = shuffled[j], shuffled[i] })
+		ids = shuffled
 	case VSwitchSelectionPolicyMost:
 		// lookup all vsw in cache and get one matched
 		// try sort the vsw
